@@ -1153,6 +1153,45 @@ func repeatedValues(e *Env, id int, cfg WireCfg, cols []Col, note string) {
 		Attempts: []AttemptPlan{a}, Note: note})
 }
 
+// modeC16r: two streams on ONE Streamer whose masters announce different formats - the caller re-positions the streamer (or
+// fails over to another master) between the calls. Each call decodes with the format ITS stream announces: file names,
+// positions and contents of the second stream are those of the second history, whatever the first one announced (C16:
+// the same result with and without the checksum once the announced algorithm is applied; rotate yields file and position).
+func modeC16r(e *Env) {
+	cfgs := allCfgs()
+	for i := 0; i < e.N(16, 200); i++ {
+		c1 := cfgs[e.R.Intn(len(cfgs))]
+		c2 := c1
+		switch i % 4 {
+		case 0, 1:
+			c2.Checksum = !c1.Checksum // binlog_checksum changed / the other master has another setting
+		case 2:
+			c2 = cfgs[e.R.Intn(len(cfgs))]
+		}
+		gp := smallGP()
+		l1 := GenLog(e.R, c1, gp, nil)
+		l2 := GenLog(e.R, c2, gp, nil)
+		if i%3 == 0 {
+			for fi, f := range l2.Files {
+				f.Name = "other-bin." + itoa(100+fi)
+			}
+			l2.Layout()
+		}
+		a1 := defaultAttempt()
+		if i%5 == 3 {
+			a1.End = "cancel"
+		}
+		a2 := defaultAttempt()
+		a2.Log = l2
+		bs := l2.Boundaries()
+		st2 := bs[e.R.Intn(len(bs))]
+		RunStreamScenario(e.Rec, &StreamScenario{ID: i + 1, Fam: "c16r", Log: l1, Start: l1.Boundaries()[0], ServerID: 16,
+			Attempts: []AttemptPlan{a1, a2}, SetPosBefore: map[int]Pos{1: st2}, Log2: l2, Start2: st2, Note: "format-changes-between-calls"})
+	}
+}
+
+func init() { modes["c16r"] = modeC16r }
+
 // ---- C15 (stream half): interleavings and re-announcements of table maps ----------------------------
 
 func init() {
